@@ -12,7 +12,7 @@ RULE = ("anchor x comparison tables over a 9-row alphabet (3 alpha parts x 3 bet
 ASSUMPTIONS = ["tidytcells.tr.get_aa_sequence is the trusted data source for CDR1/CDR2 (property wording)",
                "the value at [i,j] may depend only on (row i, row j): all 81 ordered row pairs are covered, tables establish locality/order/label independence",
                "rapidfuzz cdist workers=-1 answered with one thread in the bulk spaces"]
-REQUIRED_CLASSES = {"all": ["allele-without-cdr2", "empty-cdr3", "distinct-prime-weights", "permuted-index", "duplicated-index", "rejects-non-table", "free-running-threads", "cdr3-distance-beyond-bins"]}
+REQUIRED_CLASSES = {"all": ["allele-without-cdr2", "empty-cdr3", "distinct-prime-weights", "permuted-index", "duplicated-index", "rejects-non-table", "free-running-threads", "cdr3-distance-beyond-bins", "table-of-thousands-of-rows"]}
 MIN_OUTCOMES = 10
 SINGLE_THREAD_RAPIDFUZZ = True
 TIER = "quick"
@@ -116,12 +116,14 @@ def spaces(tier):
         yield ("free",)
         for n in (24, 25, 26, 36, 51, 71, 80):
             yield ("longcdr3", n)
+        for N in (257, 1025, 3001) + (() if q else (10001,)):
+            yield ("bigtable", N)
 
     return [
+        Space("rejections-and-free-threads", gen_reject, "non-table / no-TCR-column inputs must raise ValueError; free-running rapidfuzz threads on the 9x9 row table; CDR3s of 24..80 residues (distances beyond every class's bins)", per_case=True),
         Space("anchor-x-comparison-tables", gen_tables, "anchors in Lists(R,2) x comparisons in Lists(R,1) + every 4th of Lists(R,2)\\Lists(R,1) (quick) / Lists(R,3) (thorough) x 6 classes x {default, distinct-prime} weights; one case = one anchor table against every comparison table", shards=45),
         Space("weight-star", gen_wstar, "81 one-row x one-row tables: each of the 8 weights in {1,2,3} alone and every pair of weights in {1,2}^2; one case = one (anchor row, comparison row)"),
         Space("label-star", gen_label, "all 2-row and (quick: every 9th; thorough: all) 3-row tables x index in {default, shifted, permuted, duplicated, string} x extra column; pdist == condensed upper triangle", shards=32),
-        Space("rejections-and-free-threads", gen_reject, "non-table / no-TCR-column inputs must raise ValueError; free-running rapidfuzz threads on the 9x9 row table; CDR3s of 24..80 residues (distances beyond every class's bins)", per_case=True),
     ]
 
 
@@ -188,6 +190,9 @@ def check_case(case, acc):
             for cls in CLASSES:
                 acc_names = accepted(cls)
                 combos = [{n: v} for n in acc_names for v in (2, 3)]
+                if cls in ("AlphaCdr3Levenshtein", "BetaCdrLevenshtein"):      # the edit-weight scorer is shared by all six classes
+                    combos += [dict(zip(WNAMES[:3], t)) for t in itertools.product((1, 2, 3), repeat=3) if len(set(t)) > 1 or t[0] > 1]
+                    combos += [dict(zip(WNAMES[:3], t)) for t in ((4, 4, 7), (3, 3, 5), (5, 5, 6), (2, 2, 4))]
                 combos += [{n1: v1, n2: v2} for n1, n2 in itertools.combinations(acc_names, 2) for v1 in (1, 2) for v2 in (1, 2) if (v1, v2) != (1, 1)]
                 for kw in combos:
                     m, kw2 = make(cls, kw)
@@ -282,6 +287,36 @@ def check_case(case, acc):
                     acc.fail("%s/long-cdr3/%s" % (cls, "raised-" + r.type if raised(r) else "value"), case, exp, r if raised(r) else r.tolist(), note=wname)
                     return
                 acc.ok((cls, wname, n, exp[0][1]), nontrivial=True)
+    elif kind == "bigtable":
+        # tables of a few thousand rows (rows drawn from the 9-row alphabet, so every entry is one of 81 known values)
+        N = case[1]
+        acc.cls("table-of-thousands-of-rows")
+        rows = [(i * 7 + (i // 9) * 4) % 9 for i in range(N)]
+        A = table([R[i] for i in rows], "shifted")
+        # the V-gene look-up costs ~1 ms per row and call: all-CDR classes only on the smaller tables
+        for cls in (("CdrLevenshtein", "AlphaCdr3Levenshtein", "BetaCdrLevenshtein") if N <= 300 else ("AlphaCdr3Levenshtein", "Cdr3Levenshtein", "BetaCdr3Levenshtein")):
+            m, kw = make(cls, PRIMES)
+            val = {(a, b): ref_value(cls, kw, R[a], R[b]) for a in range(9) for b in range(9)}
+            v = acc.call(m.calc_pdist_vector, A)
+            if raised(v) or v.shape != (N * (N - 1) // 2,):
+                acc.fail("%s/pdist/big-table/%s" % (cls, "raised" if raised(v) else "shape"), case, N * (N - 1) // 2, v if raised(v) else v.shape)
+                return
+            import numpy as np
+            ra = np.array(rows)
+            iu = np.triu_indices(N, 1)
+            lut = np.array([[val[(a, b)] for b in range(9)] for a in range(9)])
+            exp = lut[ra[iu[0]], ra[iu[1]]]
+            if not np.array_equal(np.asarray(v), exp):
+                k = int(np.flatnonzero(np.asarray(v) != exp)[0])
+                acc.fail("%s/pdist/big-table/value" % cls, case, int(exp[k]), int(v[k]), note="condensed index %d = rows (%d, %d)" % (k, iu[0][k], iu[1][k]))
+                return
+            sub = A.iloc[: min(N, 300)]
+            c = acc.call(m.calc_cdist_matrix, A, sub)
+            expc = lut[ra[:, None], ra[None, : len(sub)]]
+            if raised(c) or not np.array_equal(np.asarray(c), expc):
+                acc.fail("%s/cdist/big-table/value" % cls, case, "N x 300 block of known values", c if raised(c) else "differs")
+                return
+            acc.ok((cls, N, int(exp.sum())), nontrivial=True)
     elif kind == "free":
         from mc.seams import free_threads
         acc.cls("free-running-threads")
